@@ -306,8 +306,13 @@ func vocabOf(fn *ssa.Function, opaque func(callee *ssa.Function) bool) map[strin
 	var visit func(f *ssa.Function, depth int)
 	record := func(cc *ssa.CallCommon) {
 		cl := calleeOf(cc)
-		if cl.Name == "Set" {
+		switch cl.Name {
+		case "Set":
 			return // x.Set(&y) and x = y are the same statement
+		case "SetOne", "One", "SetZero", "IsOne":
+			// one.SetOne() / fr.One() / Element{}; x.IsOne() / x.Equal(&one): interchangeable ways of
+			// naming a constant
+			return
 		}
 		out[normSibling(descCallee(cl))] = true
 	}
